@@ -432,6 +432,47 @@ def run_composites(ctx: Ctx) -> None:
                 return True, ""
             _guard(ctx, "T67.nonrigid-points", f"{cls_nr}:ac={ac_nr}", prog.func("deepali.spatial.base", "SpatialTransform.forward"), f"class={cls_nr} align_corners={ac_nr}", thnp)
 
+    ctx.rule("T67.nonrigid-disp", "disp(grid2) of a dense non-rigid transform on a grid with another domain (and possibly the other "
+                                  "align_corners convention): the buffered field is sampled at grid2's sample positions (expressed in the "
+                                  "transform's cube) and the sampled vectors are re-expressed from the transform's cube units into grid2's own "
+                                  "cube units — the same convention the linear branch and CompositeTransform.disp use")
+    for ac1, ac2 in ((True, True), (False, False), (True, False), (False, True)):
+        def thnd(ac1=ac1, ac2=ac2):
+            from .t6_transforms import TEnv
+            env = TEnv(ctx, 2)
+            it = env.it
+            env.grid = it.new(env.Grid, size=(5, 5), align_corners=ac1)
+            g2 = it.new(env.Grid, size=(4, 3), spacing=(Fraction(3, 2), 2), center=(Fraction(1, 3), Fraction(-1, 5)), align_corners=ac2)
+            t = env.make("deepali.spatial.nonrigid", "DisplacementFieldTransform", {}, "buffer")
+            it.method(t, "update")
+            u = it.method(t, "tensor").clone()
+            del symt.GRID_SAMPLE_CALLS[:]
+            d = it.method(t, "disp", g2)
+            calls = [c for c in symt.GRID_SAMPLE_CALLS if teq(c["input"], u)]
+            if len(calls) != 1:
+                return False, f"expected one sampling of the buffered field, saw {len(calls)}"
+            c = calls[0]
+            Ax = prog.cls("deepali.core.grid", "Axes")
+            cube = lambda f: it.enum(Ax, "CUBE_CORNERS" if f else "CUBE")
+            W = it.enum(Ax, "WORLD")
+            # sample positions: grid2's samples expressed in the transform's cube, under the flag handed to torch
+            a = bool(c["align_corners"])
+            pos = as_h(it.method(g2, "transform", cube(a), cube(a), to_grid=env.grid))
+            ident = identity_coords((3, 4), a).reshape([-1, 2])
+            got = c["grid"].reshape([-1, 2])
+            for q in range(ident.shape[0]):
+                if not teq(got[q], apply(pos, ident[q])):
+                    return False, f"sample position {q} is not grid2's sample expressed in the transform's cube (align_corners={a})"
+            smp = symt.grid_sample(u, c["grid"], mode=c["mode"], padding_mode=c["padding_mode"], align_corners=c["align_corners"])
+            M = symt.matmul(as_h(it.method(g2, "transform", W, cube(ac2)))[:, :2], as_h(it.method(env.grid, "transform", cube(ac1), W))[:, :2])
+            want = symt.matmul(M, smp[0].permute([1, 2, 0]).unsqueeze(-1)).squeeze(-1).permute([2, 0, 1])
+            if list(d.shape) != [1, 2, 3, 4] or not teq(d[0], want):
+                return False, (f"disp(grid2) with transform align_corners={ac1}, grid2 align_corners={ac2}: the sampled vectors are not "
+                               f"re-expressed in grid2's own cube units (first {to_rat(d.flat()[0])} expected {to_rat(want.flat()[0])})")
+            return True, ""
+        _guard(ctx, "T67.nonrigid-disp", f"ac={ac1}->{ac2}", prog.func("deepali.spatial.base", "SpatialTransform.disp"),
+               f"non-rigid disp on another grid align_corners {ac1}->{ac2}", thnd)
+
     def thm():
         from .t6_transforms import TEnv
         env = TEnv(ctx, 2)
